@@ -1,5 +1,7 @@
 import RosuModel.Model.PipelineCatchWire
 import RosuModel.Model.CurveWire
+import RosuModel.Model.PipelineCurve
+import RosuModel.Model.PipelineBytesWire
 
 /-!
 # `PIPE catchcurve` wire: the osu!catch pipeline with the curve INSIDE the model
@@ -179,5 +181,46 @@ def handleOSLDC (version sm tr slider expected cps ltt : String) : String :=
           s!"{Rosu.SliderEvents.showF p.endTime}|" ++ Rosu.SliderEvents.showLong (showNestedPos nested)
             ++ s!"|{Rosu.Curve.Wire.showPos lazyEnd}|{Rosu.SliderEvents.showF dist}"
   | _ => "bad-slider"
+
+/-! ## `PIPE osuc`: the osu! pipeline from the bytes of the file, curve included
+
+`PIPE osuc <file bytes hex> <reflection> <cs> <ar_window> <ar> <hp> <od_great> <od_ok> <od_meh> <clock>
+<flags td rx ap fl hd> <take|-> <gradual indices|->` — the request of `PIPE osub` WITHOUT its last field:
+the `CurveInputs` are `PipelineCurve.curveInputsOfModel` of the decoded sliders.  The only non-file inputs
+left are the attribute-builder outputs and the settings.  Response: as `PIPE osub`. -/
+
+def ieeeFold : Rosu.PipelineCurve.FoldOps Float where
+  fmod1 x := fmodPow2 x 1.0
+  fmod2 x := fmodPow2 x 2.0
+
+def handlePIPEOC (args : List String) : String :=
+  match args with
+  | [bytes, refl, cs, arw, ar, hp, og, ook, om, clock, flags, take, gidx] =>
+    match Rosu.PerfCalc.bits flags with
+    | [td, rx, ap, fl, hd] =>
+      let f64 := Rosu.Stack.Wire.f64
+      let inp : Rosu.PipelineBytes.OsuInputs Float :=
+        { cs := f64 cs, arWindow := f64 arw, ar := f64 ar, hp := f64 hp, odGreat := f64 og, odOk := f64 ook,
+          odMeh := f64 om, clockRate := f64 clock, reflection := refl.toNat?.getD 0,
+          mods := { td := td, rx := rx, ap := ap, fl := fl }, hd := hd }
+      let O := Rosu.PipelineBytes.Wire.ieeeB
+      let A := Rosu.ConvOsu.Wire.ieee
+      let E := Rosu.SliderEvents.floatArith
+      let C := Rosu.Curve.Wire.ieee
+      let fuel := Rosu.SliderEvents.driverFuel
+      let bs := Rosu.PipelineWire.hexBytes bytes
+      let one := Rosu.PipelineBytes.Wire.showOutWith
+        (Rosu.PipelineCurve.osuDifficultyFromBytesCurve O A E C ieeeFold fuel bs inp (takeOf take))
+        (Rosu.PipelineOsu.Wire.showAttrs "")
+      let gs := if gidx = "-" then [] else (gidx.splitOn ",").map (fun (s : String) => s.toNat?.getD 0)
+      let gout := String.join (gs.map fun i =>
+        match Rosu.PipelineCurve.osuGradualFromBytesCurve O A E C ieeeFold fuel bs inp i with
+        | .ok (some a) => " " ++ Rosu.PipelineOsu.Wire.showAttrs s!"g{i}." a
+        | .ok none => s!" g{i}=none"
+        | .fuel => s!" g{i}=FUEL"
+        | _ => s!" g{i}=PANIC")
+      one ++ gout
+    | _ => "bad-flags"
+  | _ => "bad-pipe-osuc"
 
 end Rosu.PipelineCatch.Wire
